@@ -66,6 +66,10 @@ CLAIMED = {
     "C18": ("inventory of state that outlives an instance (module globals re-bound from functions, class-level containers, mutable defaults, default arguments that are objects with written fields) "
             "with writer and reader both reachable from the public API",
             "who-writes/who-reads over the call graph", "§3/C18, §9.2"),
+    "C19": ("partial: discipline of the walk that computes the options - every node kind handled, position stacks balanced on all paths and restored when an alternative is abandoned, "
+            "all alternatives explored, repetition rounds offered exactly while count < max and left exactly when count >= min, message nonterminals offered only while exploring, "
+            "forecasts of all partial derivations united, completion only for complete derivations; the equivalence with the message language itself is not decided",
+            "visitor exhaustiveness + stack-depth dataflow over the CFG + canonical-form comparison of bound tests + branch/return shape checks", "§5, §9.2"),
     "C20": ("partial: lock discipline on the receive buffer, thread-side effects append-only, atomic in-order queuing, acceptance discipline "
             "of _generate_io, the recorded history is sealed before a packet is mounted on it, the buffer is trimmed to the accepted parse's own fragment index",
             "AST region check + call-graph reachability from thread entries + CFG path queries + def-use provenance", "§3/C20, §9.2"),
@@ -74,7 +78,6 @@ CLAIMED = {
 NOT_APPLICABLE = {
     "C05": "round-trip equality of generate->parse depends on the agreement of two regex engines and on Earley completeness: values, not code shape; no sound static clause in reach (DESIGN §5)",
     "C13": "equality of parse sets across all fragmentations is arithmetic on runtime offsets of incomplete terminals; only constant-equality proxies would be checkable and those are brittle (DESIGN §5)",
-    "C19": "'options = exactly the grammar's continuations' is a value-level equivalence between a visitor walk and the message language; visitor exhaustiveness alone would be a proxy (DESIGN §5)",
 }
 
 NOT_BUILT_YET = "rules designed in DESIGN.md §3 but the check is not built yet; not claimed until it exists and is silent on the repaired tree"
